@@ -11,7 +11,7 @@ from oracles import plfun as P
 
 PROPERTY = "C08"
 RULE = (
-    "medium diagrams of 6..12 (thorough ..35) bars on grids of 5..121 nodes; ALL multisets of <= n bars with endpoints on the quarter lattice of [0,3] (78 bars, mostly off "
+    "every num_steps in 2..64 (thorough ..300) on a cover of 5 diagrams x 2 grids; medium diagrams of 6..12 (thorough ..35) bars on grids of 5..121 nodes; ALL multisets of <= n bars with endpoints on the quarter lattice of [0,3] (78 bars, mostly off "
     "grid); per diagram: grids (start,stop) in {(0,3), (-1,4), (0,3.5), tight default, only start given, only stop given} x num_steps in "
     "{2,3,4,5,7,13} (+25,100 thorough), hom_deg 0/1 with a decoy. Oracle: k-th largest tent at every "
     "grid node and depth: |value - truth| <= step/2 (+1e-9), <= 1e-12 when every endpoint is a grid "
@@ -37,7 +37,13 @@ def qbars():
     return [(b, d) for d in q for b in q if b < d]
 
 
+SWEEP_COVER = [[[0.0, 3.0]], [[0.25, 1.75], [1.0, 2.5]], [[0.5, 0.75], [0.0, 2.0], [1.5, 3.0]], [[0.0, 1.0], [1.0, 2.0], [2.0, 3.0]],
+               [[0.75, 2.25], [0.75, 2.25], [1.25, 1.5]]]
+
+
 def cases(tier):
+    for ci in range(len(SWEEP_COVER)):
+        yield {"kind": "steps-sweep", "cover": ci, "hi": 64 if tier == "quick" else 300}
     for n_ in ((6, 8, 12) if tier == "quick" else (6, 7, 8, 12, 20, 35)):
         for k in range(3):
             for lat in (True, False):
@@ -129,6 +135,16 @@ def run_case(case, ctx):
 
     if case.get("kind") == "medium":
         return run_medium(case, ctx)
+    if case.get("kind") == "steps-sweep":
+        D = SWEEP_COVER[case["cover"]]
+        A = np.array(D, dtype=float)
+        for num in range(2, case["hi"] + 1):
+            for (start, stop) in ((0.0, 3.0), (-0.5, 3.25)):
+                ctx.state((D, start, stop, num))
+                pl = quiet(ctx, PersLandscapeApprox, dgms=[A], hom_deg=0, num_steps=num, start=start, stop=stop)
+                check_grid(ctx, D, pl, start, stop, num, "num_steps sweep", sig="approx-steps")
+        ctx.nontriv("all_num_steps_2_to_%d" % case["hi"])
+        return
     D = case["D"]
     A = np.array(D, dtype=float)
     decoy = np.array([[0.0, 3.0], [0.25, 0.5]])
